@@ -107,16 +107,15 @@ theorem reshape_roundtrip {α} (t : Tensor α) (s : List Nat) (idx : List Nat)
   have hlt : ravel t.shape idx < prod s := hp ▸ ravel_lt t.shape idx hi
   rw [ravel_unravel s _ hlt, unravel_ravel t.shape idx hi]
 
-/-- Tearfree `_deblockify ∘ _blockify` is the identity — PARTIAL: proved for parameters with at
-most one large axis (both functions are then pure reshapes), for every rank and block size.
-Missing: the two-large-axes case (reshape ∘ transpose ∘ reshape); there the inverse-permutation
-algebra is not proved and the round trip is established only by the exact correspondence run on
-enumerated shapes. -/
-theorem deblockify_blockify_id_partial {α} (t : Tensor α) (b : Nat)
-    (hle : (blocksMetadata b t.shape).largeAxes.length ≤ 1)
+/-- Tearfree `_deblockify ∘ _blockify` is the identity on every in-bounds entry, for every
+parameter Tearfree Shampoo's `_init` accepts: any rank, at most two large axes (`dim ≥ block_size`),
+each large axis a multiple of the block size. Covers the pure-reshape cases and the
+reshape ∘ transpose ∘ reshape case (inverse permutations proved). -/
+theorem deblockify_blockify_id {α} (t : Tensor α) (b : Nat)
+    (hle : (blocksMetadata b t.shape).largeAxes.length ≤ 2)
     (hdiv : ∀ a ∈ (blocksMetadata b t.shape).largeAxes, b ∣ t.shape.getD a 0) :
     (deblockify (blockify t (blocksMetadata b t.shape)) (blocksMetadata b t.shape)).Eqv t :=
-  deblockify_blockify_le_one t b hle hdiv
+  deblockify_blockify_eqv t b hle hdiv
 
 /-- Tearfree padding: never shrinks, pads to a multiple of the block, by less than a block,
 and leaves small dimensions alone. -/
